@@ -640,6 +640,11 @@ class Interp:
     def loop(self, st, cond, inc, body, check, fuel, f, depth):
         if fuel <= 0:
             raise BrokenAnalysis("%s: loop does not terminate within the bit interpreter's fuel" % f.name)
+        dl = getattr(self, "deadline", None)
+        if dl is not None:
+            import time as _t
+            if _t.time() > dl:
+                raise BrokenAnalysis("%s: interpretation budget of this scenario exceeded" % f.name)
         if check and cond is not None:
             for s, t in self.truth(st, cond, f, depth):
                 if t:
